@@ -1,6 +1,7 @@
 INIT Init
 NEXT Next
 CONSTANTS
+  EndKinds = {"commit", "rollback"}
   StepKinds <- AllKinds
   MaxSteps <- EnvMaxSteps
   Gtx = {TRUE, FALSE}
